@@ -209,8 +209,7 @@ def run(index, tier="quick", seed=0) -> Result:
                 probs.append("fan triangulation [[vs[f[0]], vs[b], vs[c]] for b, c in zip(f[1:], f[2:])] not recognised")
             else:
                 t = fan["targets"]
-                okfan = len(t) == 2 and fan["zip"] == ["f[1:]", "f[2:]"] and fan["elts"][0] in ("vs[f[0]]", "shape.vertices[f[0]]") \
-                    and fan["elts"][1].endswith(f"[{t[0]}]") and fan["elts"][2].endswith(f"[{t[1]}]")
+                okfan = len(t) == 2 and fan["lowers"] == [1, 2] and fan["rows"] == [("face", 0), ("target", 0), ("target", 1)]
                 if not okfan:
                     probs.append(f"triangles are not the fan (f[0], f[i], f[i+1]): zip{fan['zip']} -> {fan['elts']}")
             if ex.cross is None:
@@ -290,70 +289,126 @@ def _cross_orientation(call: ast.Call):
 
 
 def _x3d(res, io):
+    """X3D-1, recognise-then-judge: a construct that is recognised and wrong (missing element / attribute, wrong parent,
+    separator other than -1, X3D root not embedded, no doctype) is a violation; a formulation the recogniser does not
+    know is an analysis error (exit 2), never a violation and never a silent pass.  Variable names carry no meaning:
+    elements are identified by their tag, lists by the variable that flows into the attribute."""
     fn = io.functions.get("to_x3d")
     hn = io.functions.get("to_html")
     if fn is None or hn is None:
         raise AnalysisError("anchor vanished: io.to_x3d / io.to_html")
     where = f"{fn.file}:{fn.lineno}"
     src = ast.unparse(fn.node)
-    probs = []
-    # element tree nesting
-    parent = {}
-    tag = {}
+    wrong, unknown = [], []
+    # element tree nesting (by dataflow of the element variables)
+    parent, tag, attrib = {}, {}, {}
+    anon = []
     for n in ast.walk(fn.node):
+        call = None
+        target = None
         if isinstance(n, ast.Assign) and isinstance(n.targets[0], ast.Name) and isinstance(n.value, ast.Call):
-            f = ast.unparse(n.value.func)
-            if f.endswith("SubElement") and len(n.value.args) >= 2:
-                parent[n.targets[0].id] = ast.unparse(n.value.args[0])
-                tag[n.targets[0].id] = ast.literal_eval(n.value.args[1]) if isinstance(n.value.args[1], ast.Constant) else "?"
-            elif f.endswith("Element") and n.value.args:
-                tag[n.targets[0].id] = ast.literal_eval(n.value.args[0]) if isinstance(n.value.args[0], ast.Constant) else "?"
-    ifs = [k for k, t in tag.items() if t.lower() == "indexedfaceset"]
-    shp = [k for k, t in tag.items() if t.lower() == "shape"]
-    if not ifs or not shp or parent.get(ifs[0]) != shp[0]:
-        probs.append("IndexedFaceSet is not a child of the shape element")
-    coord_calls = [n for n in ast.walk(fn.node) if isinstance(n, ast.Call) and ast.unparse(n.func).endswith("SubElement")
-                   and len(n.args) >= 2 and isinstance(n.args[1], ast.Constant) and str(n.args[1].value).lower() == "coordinate"]
-    if not coord_calls or not ifs or ast.unparse(coord_calls[0].args[0]) != ifs[0]:
-        probs.append("Coordinate is not a child of IndexedFaceSet")
-    # coordIndex = ' '.join(str(i) for i in point_indices), with -1 inserted per face
-    m = re.search(r"'coordIndex':\s*' '\.join\(\[str\((\w+)\) for \1 in (\w+)\]\)", src)
-    if not m:
-        probs.append("coordIndex is not the space-joined index list")
-    else:
-        lst = m.group(2)
-        ins = [n for n in ast.walk(fn.node) if isinstance(n, ast.For) and ast.unparse(n.iter).endswith(".faces")
-               and any(isinstance(c, ast.Call) and ast.unparse(c.func) == f"{lst}.insert" and len(c.args) == 2
-                       and ast.unparse(c.args[1]) == "-1" for c in ast.walk(n))]
-        if not ins:
-            probs.append("no `-1` separator is inserted into the index list once per face")
-        tot = re.search(rf"{lst} = list\(range\(sum\(\[len\((\w+)\) for \1 in \w+\.faces\]\)\)\)", src)
-        if not tot:
-            probs.append("the index list does not enumerate sum(arity) points")
-    pm = re.search(r"'point':\s*' '\.join\(\[str\((\w+)\) for \1 in (\w+)\]\)", src)
-    if not pm:
-        probs.append("point is not the space-joined coordinate list")
-    else:
-        lst = pm.group(2)
-        pd = re.search(rf"{lst} = \[(\w+) for (\w+) in \w+\.faces for (\w+) in \2 for \1 in \w+\.vertices\[\3\]\]", src)
-        if not pd:
-            probs.append("points are not the coordinates of the faces' vertices in face order")
-    if "write(filename" not in src:
-        probs.append("the tree is not written to the file")
-    if probs:
-        res.bad("X3D-1", "to_x3d:" + _fmt_key(probs[0]), where, "io.to_x3d: " + "; ".join(probs))
+            call, target = n.value, n.targets[0].id
+        elif isinstance(n, ast.Expr) and isinstance(n.value, ast.Call):
+            call = n.value
+        if call is None:
+            continue
+        f = ast.unparse(call.func)
+        if f.endswith("SubElement") and len(call.args) >= 2 and isinstance(call.args[1], ast.Constant):
+            key = target or f"<anon{len(anon)}>"
+            anon.append(key)
+            parent[key] = ast.unparse(call.args[0])
+            tag[key] = str(call.args[1].value)
+        elif f.endswith(".Element") and call.args and isinstance(call.args[0], ast.Constant) and target:
+            key = target
+            tag[key] = str(call.args[0].value)
+        else:
+            continue
+        for kw in call.keywords:
+            if kw.arg == "attrib" and isinstance(kw.value, ast.Dict):
+                attrib[key] = {k.value: v for k, v in zip(kw.value.keys, kw.value.values) if isinstance(k, ast.Constant)}
+    by_tag = {}
+    for k, t in tag.items():
+        by_tag.setdefault(t.lower(), []).append(k)
+    ifs, shp, crd = by_tag.get("indexedfaceset", []), by_tag.get("shape", []), by_tag.get("coordinate", [])
+    if not ifs:
+        wrong.append("no IndexedFaceSet element is created")
+    elif not shp or parent.get(ifs[0]) != shp[0]:
+        wrong.append("IndexedFaceSet is not a child of the shape element")
+    if not crd:
+        wrong.append("no Coordinate element is created")
+    elif ifs and parent.get(crd[0]) != ifs[0]:
+        wrong.append("Coordinate is not a child of IndexedFaceSet")
+
+    def joined_list(expr):
+        """' '.join([str(x) for x in L]) / ' '.join(str(x) for x in L) / ' '.join(map(str, L))  ->  name of L"""
+        t = ast.unparse(expr)
+        m_ = re.fullmatch(r"' '\.join\(\[?str\((\w+)\) for \1 in (\w+)\]?\)", t) or re.fullmatch(r"' '\.join\(map\(str, (\w+)\)\)", t)
+        return m_.group(m_.lastindex) if m_ else None
+
+    if ifs and not wrong:
+        a_ = attrib.get(ifs[0], {})
+        if "coordIndex" not in a_:
+            wrong.append("IndexedFaceSet has no coordIndex attribute")
+        else:
+            lst = joined_list(a_["coordIndex"])
+            if lst is None:
+                unknown.append("coordIndex value is not a recognised space-joined list")
+            else:
+                inserts = [c for n in ast.walk(fn.node) if isinstance(n, ast.For) and ast.unparse(n.iter).endswith(".faces")
+                           for c in ast.walk(n) if isinstance(c, ast.Call) and ast.unparse(c.func) == f"{lst}.insert" and len(c.args) == 2]
+                if not inserts:
+                    if re.search(rf"{lst}\.(append|extend)\(", src) or not re.search(rf"{lst} = list\(range\(", src):
+                        unknown.append("construction of the index list not recognised")
+                    else:
+                        wrong.append("no `-1` separator is inserted into the index list once per face")
+                elif any(ast.unparse(c.args[1]) != "-1" for c in inserts):
+                    wrong.append(f"the face separator inserted into coordIndex is {ast.unparse(inserts[0].args[1])}, not -1")
+                tot = re.search(rf"{lst} = list\(range\(sum\(\[?len\((\w+)\) for \1 in \w+\.faces\]?\)\)\)", src)
+                if not tot and not unknown:
+                    unknown.append("the index list is not recognised as enumerating sum(arity) points")
+    if crd and not wrong:
+        a_ = attrib.get(crd[0], {})
+        if "point" not in a_:
+            wrong.append("Coordinate has no point attribute")
+        else:
+            lst = joined_list(a_["point"])
+            if lst is None:
+                unknown.append("point value is not a recognised space-joined list")
+            else:
+                pd = re.search(rf"{lst} = \[(\w+) for (\w+) in \w+\.faces for (\w+) in \2 for \1 in \w+\.vertices\[\3\]\]", src)
+                if not pd:
+                    unknown.append("construction of the point list not recognised")
+    if not re.search(r"\.write\(\s*filename", src):
+        wrong.append("the tree is not written to the file")
+    if wrong:
+        res.bad("X3D-1", "to_x3d:" + _fmt_key(wrong[0]), where, "io.to_x3d: " + "; ".join(wrong))
+    elif unknown:
+        raise AnalysisError("io.to_x3d left the recognised fragment: " + "; ".join(unknown))
     else:
         res.ok("X3D-1", "to_x3d", sample={"elements": tag})
+    # ---- to_html
     hs = ast.unparse(hn.node)
-    hprobs = []
-    if "to_x3d(shape, filename)" not in hs:
-        hprobs.append("does not build the X3D of the shape")
-    if not re.search(r"\.append\(\w+\.getroot\(\)\)", hs):
-        hprobs.append("does not embed the X3D root element")
-    if "<!DOCTYPE html>" not in hs or "tostring(html" not in hs:
-        hprobs.append("does not write the html document")
-    if hprobs:
-        res.bad("X3D-1", "to_html:" + _fmt_key(hprobs[0]), f"{hn.file}:{hn.lineno}", "io.to_html " + "; ".join(hprobs))
+    hwrong = []
+    sp = hn.params
+    calls = [c for c in ast.walk(hn.node) if isinstance(c, ast.Call) and ast.unparse(c.func) in ("to_x3d",)]
+    if not calls or [ast.unparse(a_) for a_ in calls[0].args][:1] != sp[:1]:
+        hwrong.append("does not build the X3D of the shape")
+    if ".getroot()" not in hs or not re.search(r"\.(append|insert|extend)\(", hs):
+        hwrong.append("does not embed the X3D root element")
+    if "<!DOCTYPE html>" not in hs:
+        hwrong.append("does not write the html doctype")
+    html_roots = [k.targets[0].id for k in ast.walk(hn.node) if isinstance(k, ast.Assign) and isinstance(k.targets[0], ast.Name)
+                  and isinstance(k.value, ast.Call) and ast.unparse(k.value.func).endswith(".Element") and k.value.args
+                  and isinstance(k.value.args[0], ast.Constant) and str(k.value.args[0].value).lower() == "html"]
+    if not html_roots:
+        hwrong.append("creates no html root element")
+    elif not re.search(rf"tostring\(\s*{html_roots[0]}\b", hs) and not re.search(rf"ElementTree\({html_roots[0]}\)\.write", hs):
+        if hwrong:
+            pass
+        else:
+            raise AnalysisError("io.to_html: serialisation of the html root not recognised")
+    if hwrong:
+        res.bad("X3D-1", "to_html:" + _fmt_key(hwrong[0]), f"{hn.file}:{hn.lineno}", "io.to_html " + "; ".join(hwrong))
     else:
         res.ok("X3D-1", "to_html")
 
